@@ -32,6 +32,8 @@ var baseDate = time.Date(2020, 1, 1, 0, 0, 0, 0, time.UTC)
 var specialTags = []string{
 	"a:b", "+plus", "-neg", `q"uote`, `back\slash`, "c^2", "t~1", "(paren)", ">gt", "<lt", "=eq",
 	"sl/ash", "two words", "!bang", "{brace}", "[sq]", "a&b", "a|b",
+	// a backslash right before a delimiter / at the end: the escaped form is `\\` followed by the delimiter
+	`trail\`, `dir\:x`, `up\^2`, `ti\~1`, `sp\ ace`, `\lead`,
 }
 
 const signField = "-neg"
